@@ -36,7 +36,13 @@ pub fn stop_faults(d: &mut Driver) {
     stop_removed(d);
     // finish whatever Ready round is in progress so that every node can be reconfigured
     d.drain(4);
-    // undo run-time window throttles (disable-progress is an operator action)
+    undo_throttles(d);
+}
+
+/// Undo run-time window throttles (`adjust_max_inflight_msgs(_, 0)` disables a progress; that is
+/// an operator action and belongs to the faults that stop).
+pub fn undo_throttles(d: &mut Driver) {
+    let n = d.sim.nodes.len();
     for v in 0..n {
         if !d.sim.nodes[v].idle() {
             continue;
@@ -47,9 +53,9 @@ pub fn stop_faults(d: &mut Driver) {
             let cur = d.sim.nodes[v]
                 .raw
                 .as_ref()
-                .and_then(|r| r.raft.prs().get(t).map(|p| p.ins.verif_view().2));
-            if let Some(_c) = cur {
-                {
+                .and_then(|r| r.raft.prs().get(t).map(|p| (p.ins.verif_view().2, p.ins.verif_view().3)));
+            if let Some((c, inc)) = cur {
+                if c != cap || inc.is_some() {
                     d.sim.mon.on_cap_adjust(v, t, cap);
                     d.sim.call(
                         v,
@@ -167,6 +173,7 @@ fn one_round(d: &mut Driver, round: usize) {
         }
     }
     stop_removed(d);
+    undo_throttles(d);
     // an application whose snapshot source was "temporarily unavailable" produces one
     if round % 4 == 3 {
         for v in 0..n {
@@ -205,13 +212,16 @@ fn diagnose(d: &Driver) -> String {
         if r.raft.state == StateRole::Leader {
             for (id, p) in r.raft.prs().iter() {
                 s.push_str(&format!(
-                    " p{}:{:?}/m{}/n{}/{}{}",
+                    " p{}:{:?}/m{}/n{}/{}{}[ins {}/{}/{:?}]",
                     id,
                     p.state,
                     p.matched,
                     p.next_idx,
                     if p.paused { "paused" } else { "" },
-                    if p.ins.full() { "full" } else { "" }
+                    if p.ins.full() { "full" } else { "" },
+                    p.ins.verif_view().1,
+                    p.ins.verif_view().2,
+                    p.ins.verif_view().3
                 ));
             }
         }
